@@ -1950,7 +1950,14 @@ class _ParametersRestorer:
 
     def __exit__(self, exc_type, exc_value, exc_tb):
         try:
-            self._parameters._update(dict(self._restore, **self._refs))
+            # One batch: the previous values first, then the references of
+            # the linked parameters on top of them. A reference that yields
+            # no value right now (its function raises Skip, or it is
+            # asynchronous) must not leave the temporary value in place.
+            with _batch_call_watchers(self._parameters.self_or_cls):
+                self._parameters._update(dict(self._restore))
+                if self._refs:
+                    self._parameters._update(dict(self._refs))
         finally:
             self._restore = {}
 
